@@ -11,7 +11,11 @@
 #endif
 int main(void) {
   IN_ARR(char, raw, NB);
+#ifdef NFIX
+  int n = NFIX, qsel = QSEL;     /* concrete length and quote (the driver enumerates them): symbolic lengths make std::string construction explode */
+#else
   IN(int, n); IN(int, qsel);
+#endif
   VASSUME(n >= 0 && n <= NB);
   char q = qsel ? '"' : '\'';
   /* well-formed literal body */
